@@ -7,5 +7,7 @@ CONSTANTS ND = 1
  CheckWait = TRUE
  Buffered = TRUE
  ExclTmp = TRUE
+ DirIsEmpty = FALSE
+ ArgCheck = TRUE
  Emit = FALSE
 CHECK_DEADLOCK FALSE
